@@ -310,6 +310,13 @@ func (b *batch) run(id int, n int) {
 	// directed: the derivation inputs that would coincide if the specific derivation were run for
 	// the generic protocol (outside the documented scheme; judged as drift only)
 	src, dst := b.ases[0], b.ases[1]
+	// directed: hosts of different address types with the same address bytes, under one level-1 key
+	for _, p := range []drkey.Protocol{drkey.SCMP, 9} {
+		for _, h := range [][2]string{{"CS", "0.2.0.0"}, {"0.2.0.0", "CS"}, {"DS", "0.1.0.0"}, {"0.1.0.0", "DS"},
+			{"Wildcard", "0.16.0.0"}, {"128.2.0.0", "CS_M"}} {
+			b.level2(ctx, p, src, dst, h[0], h[1], base)
+		}
+	}
 	b.level2(ctx, 5, src, dst, "1.2.0.0", "1.2.0.0", base)  // generic, proto 5, 1.2.0.0
 	b.level2(ctx, 77, src, dst, "5.0.1.2", "5.0.1.2", base) // undoc: specific on generic L1, host 5.0.1.2
 }
